@@ -1157,6 +1157,13 @@ namespace cds { namespace intrusive {
                         return true;
                     }
                 }
+                else if ( slot.bits() != 0 && iter.pointer() != nullptr ) {
+                    // The slot is (being) expanded to an array node: the item pointed by the iterator
+                    // has been moved down the tree. The item is guarded by the iterator, erase it by its hash
+                    value_type const * pVal = iter.pointer();
+                    typename gc::Guard guard;
+                    return do_erase( hash_accessor()( *pVal ), guard, [pVal]( value_type const& item ) -> bool { return &item == pVal; } ) != nullptr;
+                }
                 else
                     return false;
             }
